@@ -1,4 +1,5 @@
-import LitexModel.Stream.Open
+import LitexModel.Stream.Open2
+import LitexModel.Stream.Monitored
 import LitexModel.Stream.Status
 import LitexModel.Packet.Num
 open Litex Litex.Driver Litex.Stream Litex.Packet
@@ -13,8 +14,10 @@ def hdrArgs (args : List String) : Option (PkCfg × HdrSpec) := do
 
 /-- `status` = packet.Status; `chain3 d` = PipeValid ⟫ SyncFIFO(d) ⟫ PipeReady (the mixed 3-element Pipeline of
     `chain3_*` in LitexProps/C04.lean); `chain_fb_pr d` = SyncFIFOBuffered(d) ⟫ PipeReady; the packet.py machines of b-c16 (`LitexModel/Packet/Num.lean`, same names
-    and port orders as Driver/C16.lean); everything else is the shared stream-element dispatcher
-    (`Stream/Open.lean`). -/
+    and port orders as Driver/C16.lean); `monitored w delimFirst t o u p c_1 … c_k` = the Pipeline of stages `c_k`
+    (codes of `Stream/Open2.lean`) with a `stream.Monitor` on its source (`Stream/Monitored.lean`: ports of `numElem`
+    + the four CSR statuses); everything else is the shared stream-element dispatcher with the glue machines
+    (`Stream/Open2.lean`: stages, buffer, sfifo, delayn, cdcsame, bufferize, converter, monitor, muxw, demuxw). -/
 def openC04 (args : List String) (hin hout : IO.FS.Stream) : Option (IO Bool) :=
   match args with
   | ["status"] => some (serve numStatus hin hout)
@@ -37,6 +40,11 @@ def openC04 (args : List String) (hin hout : IO.FS.Stream) : Option (IO Bool) :=
     let m ← m.toNat?
     let oh ← oh.toNat?
     some (serve (numDispatcher m (n2b oh)) hin hout)
-  | _ => Litex.Stream.openMachine args hin hout
+  | "monitored" :: w :: df :: t :: o :: u :: p :: codes =>
+    match parseNats [w, df, t, o, u, p], codes.mapM parseStage with
+    | some [w, df, t, o, u, p], some l =>
+      some (serve (numMonitored (stagesKey l) (stages zTok l) w ⟨n2b t, n2b o, n2b u, n2b p⟩ (n2b df)) hin hout)
+    | _, _ => none
+  | _ => Litex.Stream.openMachine2 args hin hout
 
 def main : IO Unit := mainLoop openC04 (fun _ => none)
